@@ -167,18 +167,36 @@ pub mod pair_{i} {{
             .iter()
             .map(|e| (e[0].as_str().unwrap().to_string(), e[1].as_u64().unwrap() as u32))
             .collect();
+        let bf = p["settings"]["builder_flags"].clone();
         let res = std::panic::catch_unwind(move || {
-            CTLexerBuilder::<DefaultLexerTypes<u32>>::new_with_lexemet()
+            let mut lb = CTLexerBuilder::<DefaultLexerTypes<u32>>::new_with_lexemet()
                 .lexer_path(&lp)
                 .output_path(&lout)
                 .mod_name(lmod_static)
                 .rule_ids_map(map)
                 .allow_missing_terms_in_lexer(true)
                 .allow_missing_tokens_in_parser(true)
-                .show_warnings(false)
-                .build()
-                .map(|_| ())
-                .map_err(|e| e.to_string())
+                .show_warnings(false);
+            if let Some(f) = bf.as_object() {
+                for (k, v) in f {
+                    lb = match (k.as_str(), v.as_bool(), v.as_u64()) {
+                        ("dot_matches_new_line", Some(b), _) => lb.dot_matches_new_line(b),
+                        ("multi_line", Some(b), _) => lb.multi_line(b),
+                        ("octal", Some(b), _) => lb.octal(b),
+                        ("posix_escapes", Some(b), _) => lb.posix_escapes(b),
+                        ("allow_wholeline_comments", Some(b), _) => lb.allow_wholeline_comments(b),
+                        ("case_insensitive", Some(b), _) => lb.case_insensitive(b),
+                        ("swap_greed", Some(b), _) => lb.swap_greed(b),
+                        ("ignore_whitespace", Some(b), _) => lb.ignore_whitespace(b),
+                        ("unicode", Some(b), _) => lb.unicode(b),
+                        ("size_limit", _, Some(n)) => lb.size_limit(n as usize),
+                        ("dfa_size_limit", _, Some(n)) => lb.dfa_size_limit(n as usize),
+                        ("nest_limit", _, Some(n)) => lb.nest_limit(n as u32),
+                        _ => panic!("unknown builder flag {k}"),
+                    };
+                }
+            }
+            lb.build().map(|_| ()).map_err(|e| e.to_string())
         });
         match res {
             Ok(Ok(())) => report.push(serde_json::json!({"id": i, "built": true, "lexer_only": true})),
